@@ -301,9 +301,31 @@ fn check_derivation(rep: &mut Report, case: u64, world: &World, rng: &mut Rng) {
             let at = sd.at_derivation_index(index).map(|x| (x.to_string(), x.derived_descriptor(&world.secp).script_pubkey().to_bytes()));
             let dd = sd.derived_descriptor(&world.secp, index).map(|x| x.script_pubkey().to_bytes());
             let idef = sd.into_definite().map(|x| x.derived_descriptor(&world.secp).script_pubkey().to_bytes());
+            // the definite descriptor used as it is (keys still key expressions) against its own
+            // derived form (plain public keys): same scripts
+            let direct = sd.at_derivation_index(index).ok().map(|x| {
+                let y = x.derived_descriptor(&world.secp);
+                (
+                    x.script_pubkey().to_bytes(),
+                    y.script_pubkey().to_bytes(),
+                    x.explicit_script().ok().map(|s| s.to_bytes()),
+                    y.explicit_script().ok().map(|s| s.to_bytes()),
+                    x.script_code().ok().map(|s| s.to_bytes()),
+                    y.script_code().ok().map(|s| s.to_bytes()),
+                )
+            });
+            if let Some((a, b, c, d, e, f)) = direct {
+                if a != b || c != d || e != f {
+                    panic!("DEFINITE-VS-DERIVED: script_pubkey {} / {}, explicit_script {:?} / {:?}, script_code {:?} / {:?}", hex(&a), hex(&b), c.map(|x| hex(&x)), d.map(|x| hex(&x)), e.map(|x| hex(&x)), f.map(|x| hex(&x)));
+                }
+            }
             (at.ok(), dd.ok(), idef.ok())
         }));
         let (at, dd, idef) = match r {
+            Err(m) if m.contains("DEFINITE-VS-DERIVED") => {
+                rep.violation(case, "C16:definite-descriptor-vs-derived_descriptor".into(), format!("{} at index {}: the definite descriptor and its derived_descriptor() disagree: {}", sd, index, m));
+                continue;
+            }
             Ok(x) => x,
             Err(m) => {
                 rep.violation(case, format!("C16:panic:derive:{}", norm_loc(&last_panic_loc())), format!("derivation API panicked ({}) on {} index {}", m, sd, index));
@@ -392,8 +414,37 @@ fn check_sortedmulti(rep: &mut Report, case: u64, world: &World, rng: &mut Rng) 
     let tap = wrapper.starts_with("tr");
     // tapscript keys may be written as full 33-byte keys (both parities): the order is still by x-only bytes
     let tap_full_keys = tap && rng.coin();
+    // spellings that change how the key *expression* compares but not (or not only) the bytes pushed:
+    // key origins in front of some keys, and uncompressed keys next to compressed ones in sh()
+    let legacy_sh = wrapper.starts_with("sh(sortedmulti");
+    let uncompressed_mask = if legacy_sh && rng.coin() { rng.below(256) } else { 0 };
+    let origin_mask = if !tap && rng.coin() { rng.below(256) } else { 0 };
+    let origin_salt = rng.below(0x1_0000);
+    let bytes_of = |i: usize| -> Vec<u8> {
+        if tap {
+            world.keys[i].xonly.serialize().to_vec()
+        } else if uncompressed_mask & (1 << i) != 0 {
+            world.keys[i].pk.serialize_uncompressed().to_vec()
+        } else {
+            world.keys[i].pk.serialize().to_vec()
+        }
+    };
     let mk = |order: &[usize]| {
-        let ks: Vec<String> = order.iter().map(|i| if tap && !tap_full_keys { world.keys[*i].xonly_hex.clone() } else { world.keys[*i].compressed_hex.clone() }).collect();
+        let ks: Vec<String> = order
+            .iter()
+            .map(|i| {
+                if tap && !tap_full_keys {
+                    world.keys[*i].xonly_hex.clone()
+                } else {
+                    let body = if uncompressed_mask & (1 << *i) != 0 { world.keys[*i].uncompressed_hex.clone() } else { world.keys[*i].compressed_hex.clone() };
+                    if origin_mask & (1 << *i) != 0 {
+                        format!("[{:08x}/{}h/{}]{}", (origin_salt as u32).wrapping_mul(0x9e37_79b1).rotate_left(*i as u32 * 5), (origin_salt + *i * 3) % 50, *i, body)
+                    } else {
+                        body
+                    }
+                }
+            })
+            .collect();
         wrapper.replace('@', &format!("{},{}", k, ks.join(","))).replace('I', &world.keys[(ids[0] + 1) % 8].xonly_hex)
     };
     let mut spks = std::collections::BTreeSet::new();
@@ -423,9 +474,13 @@ fn check_sortedmulti(rep: &mut Report, case: u64, world: &World, rng: &mut Rng) 
         rep.nontrivial(&format!("sm|{}", mk(ids)));
         // and the script is the BIP-67 sorted plain multisig
         let mut sorted: Vec<usize> = ids.to_vec();
-        sorted.sort_by_key(|i| if tap { world.keys[*i].xonly.serialize().to_vec() } else { world.keys[*i].pk.serialize().to_vec() });
+        sorted.sort_by_key(|i| bytes_of(*i));
         let plain = mk(&sorted).replace("sortedmulti_a", "multi_a").replace("sortedmulti", "multi");
-        if let Ok(Ok(spk)) = guarded(|| Descriptor::<Dk>::from_str(&plain).map(|d| d.script_pubkey().to_bytes())) {
+        // BIP-67 is defined for compressed keys only: with an uncompressed key among them only the
+        // order-independence above is judged
+        if ids.iter().any(|i| uncompressed_mask & (1 << *i) != 0) {
+            rep.count("sortedmulti-with-uncompressed-keys: order independence only");
+        } else if let Ok(Ok(spk)) = guarded(|| Descriptor::<Dk>::from_str(&plain).map(|d| d.script_pubkey().to_bytes())) {
             if !spks.contains(&spk) {
                 rep.violation(case, "C16:sortedmulti-not-bip67".into(), format!("{} differs from the lexicographically sorted multi {}", mk(ids), plain));
             }
